@@ -39,12 +39,13 @@ Verify each yourself: demo on the clean tree (holds), apply patch, build, full t
 Leave `{wt}/repo` clean (`git checkout -- . && git clean -fdq examples` as needed) and reply with a short summary of each mutation (what, where, trigger). Do not delete `{wt}/out`.
 '''
 args = sys.argv[1:]
-round2 = '--round2' in args or '--round3' in args
+round2 = '--round2' in args or '--round3' in args or '--round4' in args
 round3 = '--round3' in args
+round4 = '--round4' in args
 args = [a for a in args if not a.startswith('--')]
 for pid in args:
     p = props[pid]
-    wt = f'/tmp/wt3/{pid}' if round3 else (f'/tmp/wt2/{pid}' if round2 else f'/tmp/wt/{pid}')
+    wt = f'/tmp/wt4/{pid}' if round4 else f'/tmp/wt3/{pid}' if round3 else (f'/tmp/wt2/{pid}' if round2 else f'/tmp/wt/{pid}')
     os.makedirs(wt + '/out', exist_ok=True)
     if not os.path.exists(wt + '/repo'):
         subprocess.check_call(['git', '-C', '/repo', 'worktree', 'add', '--detach', wt + '/repo', 'HEAD'], stdout=subprocess.DEVNULL)
@@ -57,6 +58,6 @@ for pid in args:
                 j = json.load(open(m)); used.append(f"- {j.get('summary','')} (trigger: {j.get('trigger','')})")
             except Exception:
                 pass
-        text = text.replace('## Deliverables, per mutation', '## Ideas already used (produce different ones: other functions, other mechanisms, other parts of the property)\n' + '\n'.join(used) + '\n\nName your mutations ' + ('`m7`, `m8`, `m9` (directories `out/m7` ...)' if round3 else '`m4`, `m5`, `m6` (directories `out/m4` ...)') + '.\n\n## Deliverables, per mutation')
+        text = text.replace('## Deliverables, per mutation', '## Ideas already used (produce different ones: other functions, other mechanisms, other parts of the property)\n' + '\n'.join(used) + '\n\nName your mutations ' + ('`m10`, `m11`, `m12` (directories `out/m10` ...)' if round4 else '`m7`, `m8`, `m9` (directories `out/m7` ...)' if round3 else '`m4`, `m5`, `m6` (directories `out/m4` ...)') + '.\n\n## Deliverables, per mutation')
     open(wt + '/TASK.md', 'w').write(text)
     print('ready', wt)
